@@ -16,8 +16,7 @@ CLAIM = dict(
          "on a single degree class k (regular graph) heterogeneous mean-field SIS = homogeneous mean-field SIS with n=k, compact pairwise SIS/SIR = homogeneous "
          "pairwise SIS/SIR with n=k (Phi o rhs_big = rhs_small o Phi); EBCM -> super-compact pairwise under SS=N psihat'(theta) phi_S, SI=N psihat'(theta) phi_I and "
          "compact pairwise -> super-compact pairwise under S_k=N c_k theta^k (both _partial: the chain rule is written out, not derived).  Translation tied by point "
-         "evaluation.  ALSO PROVED, over hand-written models of the node-level and 2-D right-hand sides (coq/Model/Rhs2D.v, tied to the code by point evaluation on every run, "
-         ">=200 points per function): on a d-regular simple graph with uniform rates the symmetric subspace (all X_i equal, all Y_i equal, <X_iY_j>, <X_iX_j> equal on edges) is "
+         "evaluation.  ALSO PROVED, over hand-written models of the node-level and 2-D right-hand sides (coq/Model/Rhs2D.v; on every run translate/rhs2d2v.py, fail-closed, regenerates coq/Gen/Rhs2.v from the source and the theorems *_generated_* re-prove generated definition = model; model and generated definition are also point-evaluated against the code, >=200 points per function): on a d-regular simple graph with uniform rates the symmetric subspace (all X_i equal, all Y_i equal, <X_iY_j>, <X_iX_j> equal on edges) is "
          "invariant and Phi o rhs_big = rhs_small o Phi with n=d for individual-based -> homogeneous mean-field and pair-based -> homogeneous pairwise (SIS and SIR, for every such "
          "graph and every N), and heterogeneous pairwise with a single degree class k = homogeneous pairwise with n=k (SIS and SIR).  VALIDATED NUMERICALLY ONLY (oracles on the real entry points, tolerance 1e-4*N): EBCM = compact pairwise = super-compact pairwise = effective degree "
          "= compact effective degree on random degree distributions with uniform rho; EBCM_pref_mix (continuous, discrete) = EBCM under uncorrelated mixing; the CURVES "
@@ -26,8 +25,9 @@ CLAIM = dict(
     design='DESIGN.md section 4, C07; section 2.4(b) (rhs2v)',
     technique='Coq proof over translator-generated model and hand-written model + point-evaluation correspondence + numerical oracles (validation) for the clauses not proved',
     note="Cited: Picard-Lindeloef uniqueness (corresponding vector fields => same curves).  effective-degree and pref-mix equivalences and the SIR heterogeneous mean-field "
-         "reduction (chain rule) are validation only / _partial.  The node-level and 2-D reductions are proved over a HAND-WRITTEN model (not regenerated from the source); "
-         "its tie is the point evaluation, and every such theorem is also re-evaluated numerically on the Python functions.")
+         "reduction (chain rule) are validation only / _partial.  The node-level and 2-D reductions are proved over a hand-written model that is itself proved equal, on every run, to the definitions "
+         "regenerated from the source (pair-based: under index_of_node = enumerate(nodelist) over a simple graph, which every caller establishes); every such theorem is also "
+         "re-evaluated numerically on the Python functions.")
 
 
 # ------------------------------------------------------------------ cases -------
